@@ -25,7 +25,7 @@ POSKEYS_ABS = ['pl', 'stm', 'cr', 'ep', 'half', 'full']
 PROPS = {
     'C01': dict(groups=['legal'], ops={'legal': ['moves', 'castle']}),
     'C02': dict(groups=['moves'], ops={'mv': ['r'] + POSKEYS_ABS + ['same']}, only_if={'mv': ('r', 'ok')}),
-    'C03': dict(groups=['univ', 'moves'], ops={'univ': ['acc', 'appdiff', 'panics', 'n'], 'mv': ['r', 'same']}),
+    'C03': dict(groups=['univ', 'moves', 'legal'], ops={'univ': ['acc', 'appdiff', 'panics', 'n'], 'mv': ['r', 'same'], 'legal': ['c03']}),
     'C04': dict(groups=['legal', 'moves'], ops={'status': ['status', 'term'], 'mv': ['term']}),
     'C05': dict(groups=['legal', 'moves'], ops={'masks': ['chk', 'pin'], 'mv': ['chk', 'pin']}),
     'C06': dict(groups=['moves'], ops={'q': ['pl', 'tl', 'cl', 'em', 'kw', 'kb', 'inv'], 'mv': ['pm', 'cm', 'comb']}),
